@@ -36,10 +36,16 @@ var c05Filters = []struct{ key, lit string }{
 	{"/a/k", "7"}, {"/a/k", ""}, {"/k/", ""}, {"/a/", "k"}, {"/k=", "7"}, {"/=", ""}, {"/-7", "a"}, {"/é", "7"},
 }
 
+// c05Pairs: two literal terms on DIFFERENT keys joined by OR and by AND (indices into c05Filters): each term is
+// judged by its own key.
+var c05Pairs = [][2]int{{0, 6}, {6, 0}, {3, 13}, {4, 18}, {18, 6}, {8, 11}, {13, 2}, {20, 18}, {1, 7}, {6, 11}}
+
 type c05Env struct {
 	projs   []*Projection
 	fields  []*Field
 	filters []*Filter
+	ors     []*Filter
+	ands    []*Filter
 	n       int
 }
 
@@ -60,6 +66,18 @@ func newC05Env() *c05Env {
 			panic(err)
 		}
 		e.filters = append(e.filters, flt)
+	}
+	term := func(i int) string { return strconv.Quote(c05Filters[i].key) + ":" + strconv.Quote(c05Filters[i].lit) }
+	for _, pr := range c05Pairs {
+		o, err := NewFilter(term(pr[0]) + " OR " + term(pr[1]))
+		if err != nil {
+			panic(err)
+		}
+		a, err := NewFilter(term(pr[0]) + " AND " + term(pr[1]))
+		if err != nil {
+			panic(err)
+		}
+		e.ors, e.ands = append(e.ors, o), append(e.ands, a)
 	}
 	return e
 }
@@ -143,6 +161,17 @@ func c05CheckNameIn(e *c05Env, name string, cfgIdx int, reuse *benchfmt.Result) 
 		m, _ := e.filters[i].Match(res)
 		if m.All() != want || m.Any() != want || m.Test(0) != want {
 			return fmt.Sprintf("filter %s:%q matched all=%v any=%v test=%v, want %v", f.key, f.lit, m.All(), m.Any(), m.Test(0), want)
+		}
+	}
+	for i, pr := range c05Pairs {
+		f0, f1 := c05Filters[pr[0]], c05Filters[pr[1]]
+		w0 := refKey(name, c05Configs[cfgIdx], f0.key) == f0.lit
+		w1 := refKey(name, c05Configs[cfgIdx], f1.key) == f1.lit
+		if m, _ := e.ors[i].Match(res); m.All() != (w0 || w1) {
+			return fmt.Sprintf("filter %s:%q OR %s:%q matched %v, want %v (each term by its own key)", f0.key, f0.lit, f1.key, f1.lit, m.All(), w0 || w1)
+		}
+		if m, _ := e.ands[i].Match(res); m.All() != (w0 && w1) {
+			return fmt.Sprintf("filter %s:%q AND %s:%q matched %v, want %v (each term by its own key)", f0.key, f0.lit, f1.key, f1.lit, m.All(), w0 && w1)
 		}
 	}
 	if string(res.Name) != name {
